@@ -57,7 +57,7 @@ func stripMod(s string) string { return strings.ReplaceAll(s, Mod+"/", "") }
 func CalleeName(c ssa.CallInstruction) string {
 	cc := c.Common()
 	if cc.IsInvoke() {
-		return stripMod(cc.Method.FullName())
+		return canonTypes(stripMod(cc.Method.FullName()))
 	}
 	if fn := cc.StaticCallee(); fn != nil {
 		if fn.Parent() != nil {
@@ -227,7 +227,7 @@ func deref(t types.Type) types.Type {
 func fieldName(t types.Type, i int) string {
 	t = deref(t)
 	if s, ok := t.Underlying().(*types.Struct); ok && i < s.NumFields() {
-		return s.Field(i).Name()
+		return FieldNameOf(t, s.Field(i))
 	}
 	return fmt.Sprintf("f%d", i)
 }
@@ -253,7 +253,13 @@ func TypeName(t types.Type) string {
 	t = deref(t)
 	if n, ok := t.(*types.Named); ok {
 		if n.Obj().Pkg() != nil {
-			return stripMod(n.Obj().Pkg().Path()) + "." + n.Obj().Name()
+			name := n.Obj().Name()
+			if curAliases != nil {
+				if o, ok := curAliases.TypeOld[n.Obj().Pkg().Path()+" "+name]; ok {
+					name = o
+				}
+			}
+			return stripMod(n.Obj().Pkg().Path()) + "." + name
 		}
 		return n.Obj().Name()
 	}
@@ -456,6 +462,7 @@ var fnInfos = map[*ssa.Function]*fnInfo{}
 type tnode struct {
 	b    *ssa.BasicBlock
 	only int
+	bk   string // which incoming edge the flag-like phis passed so far took (see pathsens.go)
 }
 
 type edgeKey struct{ from, to *ssa.BasicBlock }
@@ -496,6 +503,7 @@ func threadOutcome1(p, s *ssa.BasicBlock) int {
 	}
 	var eval func(c ssa.Value) (val, known bool)
 	eval = func(c ssa.Value) (bool, bool) {
+		c = StoredHere(c)
 		switch c := c.(type) {
 		case *ssa.Phi:
 			if c.Block() != s || idx >= len(c.Edges) {
@@ -519,7 +527,7 @@ func threadOutcome1(p, s *ssa.BasicBlock) int {
 			} else {
 				return false, false
 			}
-			phi, ok := other.(*ssa.Phi)
+			phi, ok := StoredHere(other).(*ssa.Phi)
 			if !ok || phi.Block() != s || idx >= len(phi.Edges) {
 				return false, false
 			}
@@ -696,12 +704,23 @@ func plainGuards(b *ssa.BasicBlock) []Guard {
 
 func (n tnode) succs() []tnode {
 	var out []tnode
+	bd := bindTable[n.bk]
+	targets := n.b.Succs
 	if n.only >= 0 {
-		t := n.b.Succs[n.only]
-		return append(out, tnode{t, threadOutcome(n.b, t)})
+		targets = []*ssa.BasicBlock{n.b.Succs[n.only]}
+	} else if len(bd) > 0 && len(n.b.Succs) == 2 && n.b.Succs[0] != n.b.Succs[1] {
+		if ifi, ok := n.b.Instrs[len(n.b.Instrs)-1].(*ssa.If); ok {
+			if v, known := evalCondBinds(ifi.Cond, bd, 0); known {
+				if v {
+					targets = []*ssa.BasicBlock{n.b.Succs[0]}
+				} else {
+					targets = []*ssa.BasicBlock{n.b.Succs[1]}
+				}
+			}
+		}
 	}
-	for _, t := range n.b.Succs {
-		out = append(out, tnode{t, threadOutcome(n.b, t)})
+	for _, t := range targets {
+		out = append(out, tnode{t, threadOutcome(n.b, t), stepBinds(n.bk, n.b, t)})
 	}
 	return out
 }
@@ -712,7 +731,7 @@ func reachableFromEntry(fn *ssa.Function, cutFrom, cutTo *ssa.BasicBlock) map[*s
 		return reached
 	}
 	seen := map[tnode]bool{}
-	start := tnode{fn.Blocks[0], -1}
+	start := tnode{fn.Blocks[0], -1, ""}
 	stack := []tnode{start}
 	seen[start] = true
 	reached[start.b] = true
@@ -874,7 +893,7 @@ func deriveGuards(g Guard) []Guard {
 		} else {
 			return nil
 		}
-		phi, ok := other.(*ssa.Phi)
+		phi, ok := StoredHere(other).(*ssa.Phi)
 		if !ok {
 			return nil
 		}
@@ -987,7 +1006,7 @@ func FindPathSkipping(fn *ssa.Function, from ssa.Instruction, to, avoid func(ssa
 	seen := map[tnode]bool{}
 	var queue []*node
 	if from == nil {
-		start = &node{t: tnode{fn.Blocks[0], -1}}
+		start = &node{t: tnode{fn.Blocks[0], -1, ""}}
 		seen[start.t] = true
 		if f, blocked := scan(nil, start.t.b, 0); f != nil {
 			return []ssa.Instruction{f}
@@ -996,7 +1015,7 @@ func FindPathSkipping(fn *ssa.Function, from ssa.Instruction, to, avoid func(ssa
 		}
 	} else {
 		// the block of `from` is entered in the middle: its final branch is open
-		start = &node{t: tnode{from.Block(), -1}}
+		start = &node{t: tnode{from.Block(), -1, ""}}
 		if f, blocked := scan(nil, start.t.b, idxIn(from)+1); f != nil {
 			return []ssa.Instruction{from, f}
 		} else if blocked {
